@@ -67,10 +67,13 @@ def run(ck):
         yv = xr.make_y(task, Xv, rng) if nv > 0 else y[:0]
         if nv == 0:
             Xv = Xv[:0]
-        desc = dict(i=i, task=task, n=n, L=L, d=d, refill=refill, nval=nv, f=f, method=method, tree_iters=tree_iters, tied_projections=tied, seed=ck.seed)
+        desc = dict(i=i, task=task, n=n, L=L, d=d, refill=refill, nval=nv, f=f, method=method, tree_iters=tree_iters, tied_projections=tied, agop_budget=(7 if i % 5 == 2 else None), seed=ck.seed)
         # proviso of the property: every leaf must end up with a non-empty validation set.
         xr.seed_all(7000 + i + ck.seed)
-        model = xr.xRFM(rfm_params=xr.default_rfm_params(iters=(1 if tree_iters else 0), reg=1e-2), max_leaf_size=L, split_method=method,
+        leaf_params = xr.default_rfm_params(iters=(1 if (tree_iters or i % 5 == 2) else 0), reg=1e-2)
+        if i % 5 == 2:
+            leaf_params['fit']['total_points_to_sample'] = 7        # AGOP sampling budget below the leaf size (leaves of more than 7 rows)
+        model = xr.xRFM(rfm_params=leaf_params, max_leaf_size=L, split_method=method,
                         overlap_fraction=f, verbose=False, use_temperature_tuning=False, refill_size=refill, n_tree_iters=tree_iters, **kwm)
         Xt, yt = torch.tensor(X), torch.tensor(y)
         rec = xr.fit_recorded(model, Xt, yt, torch.tensor(Xv), torch.tensor(yv), timeout=120, tolerate_empty_val=True)
